@@ -16,6 +16,7 @@ import (
 	"math/big"
 	"os"
 	"path/filepath"
+	"time"
 
 	"github.com/0xPolygon/cdk-contracts-tooling/contracts/pp/l2-sovereign-chain/polygonzkevmbridgev2"
 	"github.com/agglayer/aggkit/bridgesync"
@@ -139,7 +140,7 @@ func RunC01(prop string, tr *Trace, sc *Script, rec *Recorder, scratch string) (
 	if err != nil {
 		return &Violation{Oracle: "harness", Detail: "deploy bridge: " + err.Error()}
 	}
-	backend.Commit()
+	commitAll(backend, cl, 1)
 	babi := bridgeV2ABI
 	initData, err := babi.Pack("initialize", uint32(0), common.Address{}, uint32(0), common.HexToAddress("0x1234"), common.Address{}, []byte{})
 	if err != nil {
@@ -149,7 +150,7 @@ func RunC01(prop string, tr *Trace, sc *Script, rec *Recorder, scratch string) (
 	if err != nil {
 		return &Violation{Oracle: "harness", Detail: "deploy proxy: " + err.Error()}
 	}
-	backend.Commit()
+	commitAll(backend, cl, 1)
 	bridge, err := polygonzkevmbridgev2.NewPolygonzkevmbridgev2(proxyAddr, cl)
 	if err != nil {
 		return &Violation{Oracle: "harness", Detail: err.Error()}
@@ -278,7 +279,7 @@ func RunC01(prop string, tr *Trace, sc *Script, rec *Recorder, scratch string) (
 		case "deposit":
 			if pending >= 10 {
 				// the transaction pool keeps a bounded number of pending transactions per account
-				backend.Commit()
+				commitAll(backend, cl, pending)
 				pending = 0
 				if v := syncBlocks(); v != nil {
 					return v
@@ -325,7 +326,7 @@ func RunC01(prop string, tr *Trace, sc *Script, rec *Recorder, scratch string) (
 			rec.Stats.Inc("deposits")
 			rec.Step(fmt.Sprintf("D%d", d.LeafType))
 		case "commit":
-			backend.Commit()
+			commitAll(backend, cl, pending)
 			if pending > 1 {
 				rec.Stats.Inc("blocks_with_several_deposits")
 			}
@@ -373,7 +374,7 @@ func RunC01(prop string, tr *Trace, sc *Script, rec *Recorder, scratch string) (
 		}
 		rec.State(fmt.Sprintf("%d:%d", len(refDeposits), lastSynced))
 	}
-	backend.Commit()
+	commitAll(backend, cl, pending)
 	if v := syncBlocks(); v != nil {
 		return v
 	}
@@ -496,4 +497,18 @@ func init() {
 	register(&PropSpec{ID: "C01", Engine: "storesim+evm", Config: C01Config, Run: RunC01,
 		OpLimit:    func(cfg map[string]int64) int { return int(cfg["ops"]) },
 		Nontrivial: func(s Stats) bool { return s["roots_checked_against_contract"] >= 2 }})
+}
+
+// commitAll seals a block once the pool reports all sent transactions as pending (the pool
+// promotes transactions asynchronously; sealing earlier would split them over two blocks
+// depending on wall-clock timing).
+func commitAll(backend *simulated.Backend, cl simulated.Client, want int) {
+	for i := 0; i < 4000 && want > 0; i++ {
+		n, err := cl.PendingTransactionCount(context.Background())
+		if err == nil && int(n) >= want {
+			break
+		}
+		time.Sleep(500 * time.Microsecond)
+	}
+	backend.Commit()
 }
